@@ -774,10 +774,117 @@ def cases(draw, rounds_max=3, fault=False):
     return case
 
 
+# ------------------------------------------------------------------ merge commits
+
+def run_merge(case, env):
+    """A commit that records a merge: the new revision must equal the working
+    tree as it stands (merge result plus later edits), with both parents."""
+    from breezy import errors
+    w = build_world(case, env)
+    other_path = w.dir + "/other"
+    wt = w.wt()
+    other = wt.branch.controldir.sprout(other_path).open_workingtree()
+    # edits on the other branch (same ids), committed there
+    om = tm.clone(w.model)
+    with other.lock_write():
+        for op in case["other_edits"]:
+            bz.apply_ops_wt(other, om, [op])
+        bz.age_files(other_path)
+        other.commit("other", rev_id=b"other-1", timestamp=bz.T0 + 5,
+                     timezone=0, committer=bz.COMMITTER, allow_pointless=True)
+    # edits on this branch, committed
+    do_edits(w, case["this_edits"])
+    w.wt().commit("this", rev_id=b"this-1", timestamp=bz.T0 + 6, timezone=0,
+                  committer=bz.COMMITTER, allow_pointless=True)
+    wt = w.wt()
+    try:
+        wt.merge_from_branch(other.branch)
+    except errors.BzrError as e:
+        return rejected("merge-setup:" + type(e).__name__)
+    if wt.conflicts():
+        return rejected("merge-setup:conflicts")
+    if len(wt.get_parent_ids()) < 2:
+        return trivial()
+    # further edits on top of the merge result (mode flips, rewrites) on files
+    # that exist now
+    wt = w.wt()
+    real = snap_real(wt)
+    files = sorted(f for f, e in real.items() if e[2] == "file")
+    for i, (kind, pick) in enumerate(case["post"]):
+        if not files:
+            break
+        f = files[pick % len(files)]
+        ap = os.path.join(w.path, paths_of(real)[f])
+        if kind == "chmod":
+            os.chmod(ap, 0o644 if os.stat(ap).st_mode & 0o100 else 0o755)
+        elif kind == "rewrite-same":
+            with open(ap, "rb") as fh:
+                data = fh.read()
+            with open(ap, "wb") as fh:
+                fh.write(data)
+        else:
+            with open(ap, "ab") as fh:
+                fh.write(b"post-merge %d\n" % i)
+    bz.age_files(w.path)
+    work = snap_real(w.wt())
+    tip = w.wt().branch.last_revision()
+    rid = w.wt().commit("merge", rev_id=b"merge-1", timestamp=bz.T0 + 7,
+                        timezone=0, committer=bz.COMMITTER)
+    repo = w.wt().branch.repository
+    new = snap_real(repo.revision_tree(rid))
+    check(new == work, "C01/merge-commit-differs-from-working-tree",
+          {f: [work.get(f), new.get(f)] for f in set(new) | set(work)
+           if new.get(f) != work.get(f)})
+    check(list(repo.get_revision(rid).parent_ids) == [tip, b"other-1"],
+          "C01/merge-commit-parents-wrong", None)
+    check(not w.pending(), "C01/tree-reports-changes-after-merge-commit",
+          w.pending())
+    return ok("merge-commit" + ("+post-merge-edits" if case["post"] else ""))
+
+
+@st.composite
+def merge_cases(draw):
+    ids = tm.IdSource()
+    model = tm.new_model()
+    base = tm.draw_ops(draw, model, ids, n_min=3, n_max=8,
+                       kinds=["add", "add", "add", "add_dir"], symlinks=False,
+                       execs=True, odd_names=False)
+    om = tm.clone(model)
+    oids = tm.IdSource(prefix="o")
+    other_edits = tm.draw_ops(draw, om, oids, n_min=1, n_max=4, symlinks=False,
+                              execs=True, odd_names=False,
+                              kinds=["modify", "modify", "chmod", "chmod", "add"])
+    tmodel = tm.clone(model)
+    tids = tm.IdSource(prefix="t")
+    # this side edits other files only (no conflicts): draw, then drop edits of
+    # ids the other side touched
+    touched = {op[1] for op in other_edits}
+    this_edits = []
+    dropped = set()
+    for op in tm.draw_ops(draw, tmodel, tids, n_min=0, n_max=3, symlinks=False,
+                          execs=True, odd_names=False,
+                          kinds=["modify", "chmod", "add"]):
+        clash = op[0] == "add" and (op[2] in dropped or any(
+            o[0] == "add" and o[2] == op[2] and o[3] == op[3]
+            for o in other_edits))
+        if op[1] in touched or op[1] in dropped or clash:
+            dropped.add(op[1])
+            continue
+        this_edits.append(op)
+    post = draw(st.lists(st.tuples(
+        st.sampled_from(["chmod", "chmod", "rewrite-same", "append"]),
+        st.sampled_from(list(range(6)))).map(list), max_size=3))
+    return {"format": draw(st.sampled_from(["2a", "2a", "pack-0.92"])),
+            "base": base, "other_edits": other_edits, "this_edits": this_edits,
+            "post": post}
+
+
 def kinds(tier):
     return [
         Kind("commit", run, strategy=cases(3 if tier == "quick" else 4),
              examples={"quick": 400, "thorough": 12000}),
+        Kind("merge-commit", run_merge, strategy=merge_cases(),
+             examples={"quick": 160, "thorough": 5000}),
         Kind("fault", run_fault, strategy=cases(2, fault=True),
              examples={"quick": 160, "thorough": 5000}),
     ]
